@@ -351,6 +351,11 @@ def fixed_programs():
         {"fn": "isconstant", "args": [P1], "kw": {}, "extra": True}, {"fn": "todict", "args": [P1], "kw": {}, "extra": True},
         {"fn": "tonumpy", "args": [{"$p": {"names": ["q0"], "shape": [2], "kind": "i", "retain": False, "terms": [[[0], [3, 4]]]}}], "kw": {}, "extra": True},
     ]
+    # a high power that cancels: a retained all-zero term must not take part in the evaluation
+    # (10.0**400 overflows, 0*inf is nan)
+    hi = {"names": ["q0"], "shape": [], "kind": "f", "retain": False, "terms": [[[400], [4]], [[0], [4]]]}
+    progs.append({"fn": "cancel-then-call", "args": [{"$p": hi}], "kw": {"values": {"q0": 10.0}}, "extra": True})
+    progs.append({"fn": "cancel-then-call", "args": [{"$p": dict(hi, kind="i")}], "kw": {"values": {"q0": 3}}, "extra": True})
     # construction without names: the exponent columns are q0, q1, ... by position, whatever is dropped later
     for how in ("dict", "attributes", "from_attributes", "clean"):
         progs.append({"fn": "construct-unnamed", "args": [], "extra": True,
